@@ -5,6 +5,7 @@ the same order on every call.
 """
 import datetime as _dt
 import itertools
+import math
 
 from . import model as M
 
@@ -62,6 +63,14 @@ def scalars(tier):
         S("float", call(1.5), ("min", 1.0), ("max", 2.0)),
         S("float", ("min", 2.5), ("max", 1.5)),
     ]
+    # bounds one ulp off a grid point (the float product bound * 10**p then rounds onto the grid)
+    for g, p in ((1.7, 1), (0.8, 2), (0.3, 1), (2.675, 3)):
+        up, dn = math.nextafter(g, math.inf), math.nextafter(g, -math.inf)
+        out += [S("float", ("min", up), ("max", g + 1.0), ("precision", p)),
+                S("float", ("min", g - 1.0), ("max", dn), ("precision", p)),
+                S("float", ("min", -g), ("max", -dn + 1.0), ("precision", p)) if T else
+                S("float", ("min", -(g + 1.0)), ("max", -up), ("precision", p)),
+                S("float", ("min", dn), ("max", up), ("precision", p))]
     if T:
         out += [S("float", ("min", 0.7), ("max", 0.9), ("precision", 1)),
                 S("float", ("min", -0.31), ("max", -0.29), ("precision", 2)),
@@ -170,6 +179,14 @@ def containers_over(K, K4, tier):
         out += [("dict", ((1, False, a), ((1, 2), True, b), (None, False, K4[1])), False),
                 ("dict", (("a", False, a), ("b", False, b), ("c", True, K4[1])), True),
                 ("dict", (("", False, a),), False)]
+    # every atom kind in every position (typed list, element, dict value, any alternative, alias)
+    atoms = [BOOL, NONE, S("bytes"), S("uuid4"), S("datetime"), S("date"), S("float"),
+             S("datetime", call(M.FIX_DT)), S("date", call(M.FIX_DATE)), S("uuid4", call(M.FIX_UUID)),
+             S("bytes", call(b"ab")), S("bool", call(False)), S("float", call(1.5))]
+    for x in atoms:
+        out += [("any", (x, NONE)), ("any", (INT, x)), ("list", ("typed", x), ()),
+                ("list", ("elems", (x, E)), ()), ("dict", (("a", False, x),), False),
+                ("dict", (("a", True, x),), True), ("alias", "X", x)]
     # any / alias
     out += [("any", (K4[0],)), ("any", (K4[0], K4[2])), ("any", (S("int", call(7)), K4[2])),
             ("any", (NONE, ("list", ("typed", INT), ()))), ("any", (K4[1], K4[3], NONE)),
